@@ -21,12 +21,12 @@ RULE = ("random documents (regimes N/U/A, 1-40 nodes), the hostile fixed documen
         "keyword parameters with escaped quotes, scalar collectors); a case = (document text, path text); it is "
         "non-trivial when the path parses and evaluation either returns >=1 node or raises; distinct by (doc, path)")
 ASSUMPTIONS = ["paths that do not parse are outside the statement (C14 covers them)",
-               "recursion beyond depth 40 and cyclic alias graphs are out of scope"]
+               "nesting is exercised to depth 40 for mixed documents and to depth 450 for pure sequences (the loader accepts about 490); cyclic alias graphs are out of scope"]
 REACH = [("yamlpath/processor.py", "_get_nodes_by_path_segment,_get_nodes_by_key,_get_nodes_by_index,_get_nodes_by_anchor,_get_nodes_by_search,_get_nodes_by_traversal,_get_nodes_by_match_all_filtered,_get_nodes_by_match_all_unfiltered,_get_nodes_by_collector,_get_required_nodes", "Processor segment handlers"),
          ("yamlpath/common/keywordsearches.py", "search_matches,has_child,max,min,parent,distinct,unique,name", "KeywordSearches"),
          ("yamlpath/common/searches.py", "search_matches", "Searches.search_matches")]
 SIZES = {"quick": 600000, "thorough": 6000000}
-REQUIRED_COUNTERS = ["returned", "yamlpath_error"]
+REQUIRED_COUNTERS = ["returned", "yamlpath_error", "deep_sequence_docs", "optional_mode_queries"]
 
 BAD_REGEX = ["(", "[", "*a", "a{2", "(?P<x", "+"]
 SEEDS = [
@@ -38,6 +38,7 @@ SEEDS = [
     ("{a: [1, 2]}", "a[distinct()]"), ("{a: [[1], [1]]}", "a[unique()]"), ("[null, null]", "[max()]"),
     ("{a: null}", "a[.^x]"), ("[]", "[.=1]"), ("{}", "**"), ("{}", "*"), ("[[]]", "**.a"),
     ('[[{b: 1, 0: [{id: "5"}, null]}], {}]', "/[-2:4][-6:5][0][distinct(id)]"),
+    ("{a: {k: 1}}", "a[has_child(,)]"), ("{l: [a, b]}", "l[-5]"), ("{l: []}", "l[-1]"), ("{l: [a, b]}", "l.-5"),
     ('{a: ["{[1]: 2}", b]}', "a[.=x]"), ("{a: [x, b]}", "a[.={[1]:2}]"), ("{a: ['{[]}', '(1,)', '[1, 2']}", "a[.>1]"),
     ('{a: ["' + "1" + "+1" * 5000 + '", b]}', "a[.=x]"), ("[a, b]", "[.=" + "1" + "+1" * 5000 + "]"),
 ]
@@ -65,11 +66,19 @@ def evaluate(ctx, doc_text, data, path_text):
         ctx.count("parser_crash_left_to_C14")
         return
     nontriv = False
-    for op in ("get", "exists"):
+    ops = ("get", "exists")
+    if len(doc_text) < 400 and (ctx.evaluations % 5 == 0):
+        ops = ("get", "exists", "optional")        # the optional-match form of the query, on a scratch copy (it may create nodes)
+    for op in ops:
         ctx.evaluated()
         try:
             p = Processor(LOG, data)
-            if op == "get":
+            if op == "optional":
+                import copy
+                ctx.count("optional_mode_queries")
+                for _ in Processor(LOG, copy.deepcopy(data)).get_nodes(path_text, mustexist=False, default_value="v"):
+                    pass
+            elif op == "get":
                 n = 0
                 for _ in p.get_nodes(path_text, mustexist=True):
                     n += 1
@@ -121,7 +130,7 @@ def hostile_seg(rng, vocab):
         return ("KEY", str(rng.randrange(-n - 2, n + 3)))
     if x < 0.78:
         return ("KW", rng.random() < 0.3, rng.choice(["has_child", "max", "min", "unique", "distinct"]),
-                [rng.choice(["\\'", '\\"', "a\\ b", "'a'", '"a b"', "a, b", ""])])
+                [rng.choice(["\\'", '\\"', "a\\ b", "'a'", '"a b"', "a, b", "", ",", " ", "&", "&a"])])
     if x < 0.85:
         return ("HSLICE", rng.choice(["a", "0", "1"]), rng.choice(["b", "9", "z"]))
     return ("KW", rng.random() < 0.3, "parent", [str(rng.choice([0, 1, 2, 7, -1]))])
@@ -139,6 +148,17 @@ def run_shard(ctx):
             data = yp.load(d)
             for p in ["**", "**.a", "**[.=x]", "/**/a", "**[0]", "*.*.*", "**[.!=x]"]:
                 evaluate(ctx, d, data, p)
+        # sequences nested as deep as the loader itself accepts (about 490 levels): a trailing ** must still return
+        for depth in (150, 300, 400, 450):
+            d = "[" * depth + "1" + "]" * depth
+            try:
+                data = yp.load(d)
+            except yp.LoadError:
+                ctx.count("deep_sequence_rejected_by_loader")
+                continue
+            ctx.counters["deep_sequence_docs"] = ctx.counters.get("deep_sequence_docs", 0) + 1
+            for p in ["**", "/**", "**[.=1]", "**[0]"]:
+                evaluate(ctx, "[x%d 1 ]x%d" % (depth, depth), data, p)
     done = 0
     while done < total:
         if rng.random() < 0.15:
